@@ -121,12 +121,15 @@ Proof.
     + constructor.
     + intros y i [].
     + intros y [K|[]] Hne. simpl in K. congruence.
-  - exists [(START, input_val)]. split; [exact S0|left; reflexivity].
+  - unfold enter. destruct (existsb prefail ts) eqn:Epf; simpl.
+    + exists (fun _ => 0). right. right. apply (prefail_in g s [] _ _ ts S0 Epf).
+    + exists [(START, input_val)]. split; [exact S0|left; reflexivity].
 Qed.
 
 Lemma lk_init F : LK init (rl_init false Dag g F).
 Proof.
   unfold rl_init, LK. destruct (start_next Dag g) as [vE|ts s]; simpl; [discriminate|].
+  unfold enter. destruct (existsb prefail ts); simpl; [discriminate|].
   intros _. split; [lia|]. split; [reflexivity|tauto].
 Qed.
 
@@ -141,7 +144,7 @@ Lemma fail_spec_of s running O log n i :
   exists pick, fail_spec g pick.
 Proof.
   intros R HS Hin Hf. destruct (nth_error_In_ex _ _ Hin) as (k & E & Hk).
-  exists (fun _ => k). right. exists s, running, O, log, n, i.
+  exists (fun _ => k). right. left. exists s, running, O, log, n, i.
   split; [exact R|]. split; [exact HS|]. split; [|exact Hf].
   rewrite Nat.mod_small by exact Hk. exact E.
 Qed.
@@ -229,7 +232,10 @@ Proof.
       unfold run_task in Hr. simpl fst in Hr. simpl snd in Hr.
       destruct (calc_next Dag g (r_ch r) [(n_id n, node_out (n_id n) inp)]) as [vE|ts ch'].
       * inversion Hr; subst. split; [unfold EI; simpl; exact G|unfold LK; simpl; discriminate].
-      * inversion Hr; subst. unfold enter. simpl. split.
+      * inversion Hr; subst. unfold enter. destruct (existsb prefail ts) eqn:Epf; simpl.
+        { split; [|unfold LK; simpl; discriminate].
+          unfold EI; simpl. exists (fun _ => 0). right. right. eapply (prefail_in g); eassumption. }
+        split.
         -- unfold EI. simpl. eexists. split; [exact G|right; exact HS].
         -- unfold LK. simpl. intros _.
            apply Permutation_length in P. simpl in P. rewrite Le in L1. simpl in L1.
@@ -264,7 +270,9 @@ Proof.
   - pose proof (ei_init F) as E. unfold EI, rl_init in *.
     destruct (start_next Dag g) as [vE|ts s]; simpl in *.
     + split; [constructor|intros y i []].
-    + destruct E as (O & R & _). eapply ri_log_ok; exact R.
+    + unfold enter in *. destruct (existsb prefail ts); simpl in *.
+      * split; [constructor|intros y i []].
+      * destruct E as (O & R & _). eapply ri_log_ok; exact R.
   - assert (E' : EI r').
     { destruct (creach_ei F (s', r')) as [K _]; [eapply cr_step; eassumption|exact K]. }
     destruct (r_res r') eqn:Er.
@@ -277,7 +285,8 @@ Proof.
       destruct (split_task t (r_run r)) as [[x rest]|]; [|discriminate].
       destruct (negb (Bool.eqb e (flag_of x))); [discriminate|].
       destruct (failed x); [inversion Hq; reflexivity|].
-      destruct (calc_next Dag g (r_ch r) [run_task x]); inversion Hq; subst; [reflexivity|discriminate].
+      destruct (calc_next Dag g (r_ch r) [run_task x]) as [v|ts ch']; [inversion Hq; reflexivity|].
+      unfold enter in Hq. destruct (existsb prefail ts); inversion Hq; subst; [reflexivity|discriminate].
     + unfold EI in E'. rewrite Er in E'. destruct E' as (O & R & _). eapply ri_log_ok; exact R.
 Qed.
 
@@ -378,14 +387,16 @@ Definition BI (r : rl) : Prop :=
   match r_res r with
   | Some o => (o, r_log r) = batch (fun l => l) m g F
   | None => exists ch' log0, ceq (r_ch r) ch' /\ r_log r = log0 ++ log_of (r_run r) /\ tasks_ok (r_run r) /\
+            existsb prefail (r_run r) = false /\
             run_batch (fun l => l) m g (S (r_fuel r)) ch' (r_run r) log0 = batch (fun l => l) m g F
   end.
 
 Lemma bi_init : BI (rl_init true m g F).
 Proof.
-  unfold BI, rl_init, batch. destruct (start_next m g) as [v|ts ch] eqn:E; simpl; [reflexivity|].
-  destruct F as [|f]; simpl; [reflexivity|].
-  exists ch, []. split; [apply ceq_refl|]. split; [reflexivity|]. split; [|reflexivity].
+  unfold BI, rl_init, batch. destruct (start_next m g) as [v|ts ch] eqn:E; [simpl; reflexivity|].
+  unfold enter. destruct F as [|f]; [simpl; reflexivity|].
+  destruct (existsb prefail ts) eqn:Epf; [simpl; rewrite Epf; reflexivity|].
+  cbn [r_res r_ch r_log r_run r_fuel]. exists ch, []. split; [apply ceq_refl|]. split; [reflexivity|]. split; [|split; [exact Epf|reflexivity]].
   eapply calc_next_tasks_ok; [exact Hnd|exact E].
 Qed.
 
@@ -394,7 +405,7 @@ Proof.
   intros Rs Hs B. inversion Hs; subst; try exact B; try discriminate.
   match goal with H : resolve_batch _ _ _ _ = Some _ |- _ => rename H into Hr end.
   match goal with H : r_res r = None |- _ => rename H into Hn end.
-  unfold BI in B. rewrite Hn in B. destruct B as (ch' & log0 & Hc & Hl & Hok & Hb).
+  unfold BI in B. rewrite Hn in B. destruct B as (ch' & log0 & Hc & Hl & Hok & Hpf & Hb).
   unfold resolve_batch in Hr.
   destruct (lookup_all (new_col s' r) (r_run r)) as [cts|] eqn:El; [|discriminate].
   destruct (Nat.eqb (List.length cts) (List.length (r_run r))) eqn:Elen; simpl in Hr; [|discriminate].
@@ -404,7 +415,7 @@ Proof.
   { rewrite Hids. apply new_col_nodup. destruct (exactly_once s' Rs) as (_ & _ & K & _). exact K. }
   assert (P : Permutation cts (r_run r)).
   { apply NoDup_Permutation_bis; [eapply NoDup_map_inv; exact Hndc|lia|exact Hincl]. }
-  cbn [run_batch] in Hb. rewrite <- Hl in Hb.
+  cbn [run_batch] in Hb. rewrite Hpf in Hb. rewrite <- Hl in Hb.
   rewrite <- (existsb_perm failed _ _ P) in Hb.
   destruct (existsb failed cts).
   { inversion Hr; subst. unfold BI; simpl. exact Hb. }
@@ -422,8 +433,10 @@ Proof.
   - destruct K as [<- K]. inversion Hr; subst. unfold BI, enter.
     destruct (r_fuel r) as [|f'] eqn:Ef; simpl.
     + exact Hb.
-    + exists s1', (r_log r). split; [exact K|]. split; [reflexivity|]. split; [|exact Hb].
-      eapply calc_next_tasks_ok; [exact Hnd|exact E2].
+    + destruct (existsb prefail ts) eqn:Epf; simpl.
+      * cbn [run_batch] in Hb. rewrite Epf in Hb. exact Hb.
+      * exists s1', (r_log r). split; [exact K|]. split; [reflexivity|]. split; [|split; [exact Epf|exact Hb]].
+        eapply calc_next_tasks_ok; [exact Hnd|exact E2].
 Qed.
 
 Lemma creach_bi x : creach true m g F x -> BI (snd x).
@@ -441,4 +454,19 @@ Theorem combined_batch_result m g F s r o :
   (o, r_log r) = batch (fun l => l) m g F.
 Proof.
   intros Hnd C E. pose proof (creach_bi m g F Hnd _ C) as B. unfold BI in B. simpl in B. rewrite E in B. exact B.
+Qed.
+
+(* eager mode, every graph: two paths of the composed system that return, return the same outcome or
+   one of them returns a failure *)
+Theorem combined_eager_dichotomy g F1 F2 s1 r1 s2 r2 o1 o2 :
+  NoDup (map n_id g) -> ~ In START (map n_id g) ->
+  creach false Dag g F1 (s1, r1) -> creach false Dag g F2 (s2, r2) ->
+  r_res r1 = Some o1 -> r_res r2 = Some o2 ->
+  o1 = o2 \/ o1 = OFail \/ o2 = OFail.
+Proof.
+  intros Hnd Hs C1 C2 E1 E2.
+  destruct (creach_ei g Hnd Hs F1 _ C1) as [D1 _]. destruct (creach_ei g Hnd Hs F2 _ C2) as [D2 _].
+  unfold EI in D1, D2. simpl in *. rewrite E1 in D1. rewrite E2 in D2.
+  destruct o1 as [v1| |], o2 as [v2| |]; try contradiction; auto.
+  left. destruct (done_unique g Hnd Hs _ _ _ _ _ _ D1 D2) as [-> _]. reflexivity.
 Qed.
